@@ -22,7 +22,9 @@
 //   - history: the same call on a twin universe built afresh from the same seed (new API, new objects, no call before)
 //     gives the same answer - the answer of a call does not depend on the calls made before it;
 //   - canonical: what the validating Decode accepted re-encodes with validation to exactly b[:n];
-//   - aliasing: Decode does not change its input.
+//   - aliasing: Decode does not change its input;
+//   - layout (package refo): every `enc` answer against the reference encoder, the requests of the session up to it as the
+//     failing input (state that the twin shares with the session - package-level variables - is invisible to `history`).
 package main
 
 import (
@@ -34,6 +36,7 @@ import (
 	"strconv"
 	"strings"
 
+	"verifharness/c03/refo"
 	"verifharness/hx"
 	"verifharness/serixgen"
 
@@ -530,6 +533,7 @@ func (x *sess) line(op string) string {
 		ans = "harness-panic " + clip(p, 100)
 	}
 	x.r.Line(op, ans)
+	rec.Line(op, ans)
 	x.nLines++
 	x.r.Count("op:" + strings.SplitN(op, " ", 2)[0])
 	if f := strings.SplitN(op, " ", 2)[0]; f == "enc" || f == "dec" {
@@ -541,7 +545,7 @@ func (x *sess) line(op string) string {
 
 // genSession: one long-lived API, many calls hopping between its call sites.
 func genSession(r *hx.Run, rng *hx.Rng, sub uint64) {
-	r.Case(sub)
+	rec.Start(r.Case(sub))
 	x := &sess{r: r}
 	seed := rng.U64() >> 1
 	x.line(fmt.Sprintf("type live %d", seed))
@@ -607,23 +611,29 @@ func genSession(r *hx.Run, rng *hx.Rng, sub uint64) {
 
 var corpus = [][]string{}
 
+var rec *refo.Rec
+
+const driverPath = "../lean/.lake/build/bin/drv_c03"
+
 func main() {
 	r := hx.Start()
 	r.Rule = "one case = one long-lived API whose registered types and call sites share *ArrayRules / TypeSettings objects; 20..60 hops between call sites, per hop " +
 		"1..2 values encoded, the encoding and a mutated input decoded; non-trivial = Encode succeeded with a non-empty encoding"
 	r.MaxSamples = 1
 	x := &sess{r: r}
+	rec = &refo.Rec{R: r, Layer: "serix-long-lived-api"}
 	if lines := r.ReplayLines(); lines != nil {
-		r.Case(0)
+		rec.Start(r.Case(0))
 		for _, l := range lines {
 			x.line(l)
 		}
+		rec.Finish(driverPath)
 		r.Finish()
 
 		return
 	}
 	for _, c := range corpus {
-		r.Case(0)
+		rec.Start(r.Case(0))
 		y := &sess{r: r}
 		for _, l := range c {
 			y.line(l)
@@ -633,5 +643,6 @@ func main() {
 		rng, sub := r.Rng.Fork()
 		genSession(r, rng, sub)
 	}
+	rec.Finish(driverPath)
 	r.Finish()
 }
